@@ -21,7 +21,7 @@ ASSUMPTIONS = ["outcomes the statement does not fix end exact judging for the ru
                "array copy shares with its original",
                "binary +, -, select and apply are modelled as shallow (elements are shared), unary + on arrays as deep for nested arrays"]
 
-MIX = {"hm_root": 0.25, "max_ops": 36, "mutating_body": 0.08, "laws": False,
+MIX = {"hm_root": 0.25, "max_ops": 36, "mutating_body": 0.08, "laws": False, "lookalike": 0.05,
        "ops": [("set", 10), ("pushBack", 10), ("pushBackUnique", 6), ("append", 7), ("deleteAt", 6), ("deleteRange", 5), ("resize", 5), ("reverse", 3), ("sort", 4),
                ("copy", 5), ("plus", 4), ("minus", 3), ("selrange", 3), ("selidx", 6), ("apply", 4), ("filter", 3), ("count", 2), ("isEqualTo", 2), ("str", 2),
                ("find", 2), ("in", 1), ("hset", 6), ("get", 2), ("hcopy", 1), ("fromArray", 1)]}
